@@ -113,7 +113,9 @@ def run(ctx):
     hist = collections.Counter()
     shapes = set()
     reqs = []
-    for j in trees:
+    for n_, j in enumerate(trees):
+        if n_ % 400 == 300:
+            PF.earlier_failures(rng, hist)       # failed parses in between (refused texts must leave nothing behind)
         hist[j["k"]] += 1
         shapes.add(PF.tree_shape(j))
         v = direct(j)
